@@ -388,13 +388,7 @@ func checkC18(c *Ctx) {
 			"ordinary duration bounds are not rendered in Go duration syntax (bound.String())")
 	}
 	// sibling agreement with the M3 reporter's renderers on the open ends
-	zero := constant.MakeInt64(0).ExactString()
-	if mt, _ := c.renderTableOf(c.fn("m3", "reporter", "valueBucketString")); mt != nil {
-		c.check(c.checkRenderTable("O2 sibling-m3", "m3.valueBucketString", mt, wantV, nil), "O2 sibling-m3", "m3.valueBucketString:agree", mt.fn.Pos(), "M3 renderer agrees on the open ends", "M3 and StatsD value renderers disagree on the open ends")
-	}
-	if mt, _ := c.renderTableOf(c.fn("m3", "reporter", "durationBucketString")); mt != nil {
-		c.check(c.checkRenderTable("O2 sibling-m3", "m3.durationBucketString", mt, wantD, map[string]string{zero: "0"}), "O2 sibling-m3", "m3.durationBucketString:agree", mt.fn.Pos(), "M3 renderer agrees on the open ends", "M3 and StatsD duration renderers disagree on the open ends")
-	}
+	c.checkM3Renderers("O2 sibling-m3")
 
 	// ---- O3 capabilities and defaults ------------------------------------------------------
 	for _, cm := range []struct {
@@ -613,4 +607,36 @@ func (c *Ctx) checkStatsdDefaults(rule string) {
 	sort.Strings(notes)
 	c.check(len(notes) == 0, rule, key+":fields", fn.Pos(), "reporter fields are the statter argument, the (defaulted) sample rate and \"%.<precision>f\"",
 		fmt.Sprintf("reporter field(s) %v are not initialised from the constructor's arguments as documented", notes))
+}
+
+// checkM3Renderers: the M3 reporter's two bucket-bound renderers map exactly {+max: "infinity",
+// -max: "-infinity"} (durations additionally 0: "0"); a renderer whose table cannot be read (a constant
+// string returned on a path that no `bound == constant` test selects) is a violation, not a skip.
+func (c *Ctx) checkM3Renderers(rule string) {
+	maxF := constant.MakeFloat64(math.MaxFloat64).ExactString()
+	minF := constant.MakeFloat64(-math.MaxFloat64).ExactString()
+	maxI := constant.MakeInt64(math.MaxInt64).ExactString()
+	minI := constant.MakeInt64(math.MinInt64).ExactString()
+	zero := constant.MakeInt64(0).ExactString()
+	for _, r := range []struct {
+		name  string
+		want  map[string]string
+		extra map[string]string
+	}{
+		{"valueBucketString", map[string]string{maxF: "infinity", minF: "-infinity"}, nil},
+		{"durationBucketString", map[string]string{maxI: "infinity", minI: "-infinity"}, map[string]string{zero: "0"}},
+	} {
+		fn := c.fn("m3", "reporter", r.name)
+		if fn == nil {
+			c.missing(rule, "m3.reporter."+r.name)
+			continue
+		}
+		c.sawFunc(c.fnKey(fn))
+		mt, why := c.renderTableOf(fn)
+		if mt == nil {
+			c.bad(rule, "m3."+r.name, fn.Pos(), "the M3 bucket-bound renderer does not select its constant strings by `bound == constant` tests ("+why+"): ordinary bounds are rendered as an open end, or an open end as a number - bucket tags of different buckets coincide")
+			continue
+		}
+		c.check(c.checkRenderTable(rule, "m3."+r.name, mt, r.want, r.extra), rule, "m3."+r.name+":agree", mt.fn.Pos(), "M3 renderer: exactly {+max: infinity, -max: -infinity}", "M3 and StatsD renderers disagree on the open ends")
+	}
 }
